@@ -125,6 +125,16 @@ def make_api(it, session: Session):
             return a[1] if it.path.decide(c.t, "ite") else a[2]
         return m
 
+    @reg("split")
+    def split(it_, a, k):
+        """Case-split on the value of a small-range symbolic integer (all values are explored)."""
+        v = a[0]
+        if isinstance(v, (SInt, FixedV)) :
+            return ops.concretize(it, v, "split")
+        if isinstance(v, SBool):
+            return it.path.decide(v.t, "split")
+        return v
+
     @reg("all_of")
     def all_of(it_, a, k):
         return it.b_all(a, k)
